@@ -35,6 +35,7 @@ type C10Case struct {
 	Seed     int64     `json:"seed"`
 	Counts   []int     `json:"counts,omitempty"`
 	countsMap map[string]int
+	DupName  bool      `json:"dup_name,omitempty"` // the last row carries the name of the first (an in-place rename before the operation): rows are rows, whatever their names
 	ViaCli   bool      `json:"via_cli,omitempty"` // support runs: every execution goes through the command tree (--seed s, s+1, ...)
 	Sched    bool      `json:"sched,omitempty"` // replay runs: the second and third execution run under two seeded goroutine schedules (an operation may start goroutines of its own)
 	MapSeeds [2]uint64 `json:"map_seeds"`
@@ -109,6 +110,10 @@ func (c10) Gen(rs uint64, tier string, race bool) interface{} {
 		case "shuffle-sites":
 			c.A = r.PickS0(0.5, 1)
 			c.B = r.PickS0(0, 0, 0.5) // with rogue rows: further sites, among those left intact, are shuffled for them
+		}
+		if (c.Op == "addgaps" || c.Op == "mutate" || c.Op == "swap" || c.Op == "recombine" || c.Op == "shuffle-sites") && r.Chance(0.25) {
+			c.DupName = true
+			return c
 		}
 		if c.Op != "bootstrap" && r.Chance(0.012) {
 			c.ViaCli = true
@@ -519,6 +524,9 @@ func (c *C10Case) apply(seed int64) (res opResult) {
 	if err != nil {
 		panic("harness: " + err.Error())
 	}
+	if c.DupName && len(c.Aln.Names) >= 2 {
+		al.Rename(map[string]string{c.Aln.Names[len(c.Aln.Names)-1]: c.Aln.Names[0]})
+	}
 	rand.Seed(seed)
 	var out align.Alignment = al
 	switch c.Op {
@@ -582,6 +590,11 @@ func (c *C10Case) apply(seed int64) (res opResult) {
 	}
 	if res.err == "" {
 		r2 := collect(out)
+		if c.DupName && len(r2.names) == len(c.Aln.Names) && r2.names[len(r2.names)-1] == c.Aln.Names[0] {
+			// the rows are told apart by position in what follows: give the last one its own name back
+			r2.names[len(r2.names)-1] = c.Aln.Names[len(c.Aln.Names)-1]
+			r2.rows[len(r2.rows)-1] = r2.names[len(r2.names)-1] + ":" + r2.seqs[len(r2.seqs)-1]
+		}
 		res.rows, res.names, res.seqs = r2.rows, r2.names, r2.seqs
 		// the result is an alignment like any other: growing it (its own columns appended once more) must leave the
 		// columns it had where they were
